@@ -148,6 +148,24 @@ pub fn exhaustive_strings(cfg: &RunCfg, w: &mut Worker, max: usize, sub: &str, w
 
 fn extra(cfg: &RunCfg, w: &mut Worker) {
     exhaustive_strings(cfg, w, if cfg.thorough { 6 } else { 4 }, "wrap", true);
+    corpus_subrun(cfg, w, |i, paras, width, v| {
+        let text = if v == 3 && i + 1 < paras.len() { format!("{}\n\n{}", paras[i], paras[i + 1]) } else { paras[i].clone() };
+        grid_variant(v, i, width, false).map(|o| Case::new(if v == 2 { "fill" } else { "wrap" }).text(text).opt(o))
+    });
+    // stress: long texts, located by pointer only (empty indents)
+    if cfg.thorough || w.id < 2 {
+        let mut r = Rng::stream(cfg.seed, &["C01", "stress"], w.id as u64);
+        let target = if cfg.thorough { 400_000 } else { 80_000 };
+        let mut s = String::new();
+        while s.len() < target {
+            s.push_str(&gen_text(&mut r, TextDomain::Any));
+            s.push(' ');
+        }
+        let mut o = OptSpec::new(*r.pick(&[20usize, 60, 80]));
+        o.bw = r.coin();
+        w.run_case(&Case::new("wrap").text(s).opt(o));
+        *w.stats.counters.entry("stress_texts".to_string()).or_insert(0) += 1;
+    }
 }
 
 pub fn known(_c: &Case, _m: &str) -> Option<&'static str> {
